@@ -7,6 +7,8 @@ import pandas_market_calendars
 
 from tradingenv.env import TradingEnvXY
 
+from vf import ep
+
 PROP = "C18"
 LEVEL = "exploration"
 ENGINE = "XY"
@@ -156,7 +158,7 @@ def case(ctx, i, tier):
     except Exception as ex:
         ctx.violation("C18:reset", error=repr(ex)[:300])
         return
-    done = bool(env._done)
+    done = ep.reset_ended_episode(env)
     k = 0
     last = None
     first = True
@@ -193,10 +195,10 @@ def case(ctx, i, tier):
             # only if the warm-up replay reaches them, which the property does not promise)
             rr = rate.loc[first_now:now] if first_now is not None else rate.iloc[0:0]
             if len(rr):
-                ok &= ctx.check("C18:rate", env.exchange[env._broker_fees.interest_rate].mid_price == rr.iloc[-1],
-                                now=now, book=env.exchange[env._broker_fees.interest_rate].mid_price, want=rr.iloc[-1])
+                ok &= ctx.check("C18:rate", env.exchange[env.broker.fees.interest_rate].mid_price == rr.iloc[-1],
+                                now=now, book=env.exchange[env.broker.fees.interest_rate].mid_price, want=rr.iloc[-1])
         else:
-            ctx.check("C18:rate", env.exchange[env._broker_fees.interest_rate].mid_price == 0.0)
+            ctx.check("C18:rate", env.exchange[env.broker.fees.interest_rate].mid_price == 0.0)
         if not ok or done:
             break
         if k > n + 2:
@@ -220,6 +222,7 @@ def case(ctx, i, tier):
     except Exception as ex:
         ctx.violation("C18:reset", error=repr(ex)[:300], episode=2)
         return
+    done2 = ep.reset_ended_episode(env)
     for j in range(3):
         now = env.now()
         Xp = env.X.loc[:now]
@@ -234,10 +237,10 @@ def case(ctx, i, tier):
                 lob = env.exchange[c]
                 ctx.check("C18:quotes", lob.bid_price == y - y * SP / 2 and lob.ask_price == y + y * SP / 2,
                           contract=c.symbol, now=now, episode=2)
-        if env._done:
+        if done2:
             break
         try:
-            obs, rw, done, info = env.step(env.action_space.sample() * 0.3)
+            obs, rw, done2, info = env.step(env.action_space.sample() * 0.3)
         except ValueError:
             break
     ctx.cat("second-episode")
